@@ -200,7 +200,9 @@ type Session struct {
 	Replies    map[string]string // step id -> full reply text sent
 	AuthLines  []string          // client lines during AUTH exchanges (raw)
 	AuthCmds   []string          // AUTH command lines
-	Cleartext  []byte            // every byte received before TLS (whole session if no TLS)
+	Cleartext  []byte            // every byte received before TLS (whole session if no TLS); set when the session ends
+	tapMu      sync.Mutex
+	tap        *tapConn
 	TLSStarted bool
 	// HandshakeBytes: what the client sent while a STARTTLS handshake that failed was running;
 	// PostTLSFail: what it sent afterwards on the raw connection.
@@ -396,6 +398,19 @@ func (s *Server) stall(c *connState) {
 	}
 }
 
+// CleartextSoFar is the byte tap of a session that may still be running.
+func (s *Session) CleartextSoFar() []byte {
+	s.tapMu.Lock()
+	t := s.tap
+	s.tapMu.Unlock()
+	if t == nil {
+		return nil
+	}
+	t.mu.Lock()
+	defer t.mu.Unlock()
+	return append([]byte{}, t.buf...)
+}
+
 // stallNoRead holds the connection without reading (so a writer on a synchronous pipe blocks).
 func (s *Server) stallNoRead(c *connState) {
 	c.sess.Stalled = true
@@ -404,6 +419,9 @@ func (s *Server) stallNoRead(c *connState) {
 
 func (s *Server) serve(rawConn net.Conn, implicitTLS bool, sess *Session) {
 	tap := &tapConn{Conn: rawConn, on: true}
+	sess.tapMu.Lock()
+	sess.tap = tap
+	sess.tapMu.Unlock()
 	c := &connState{srv: s, sess: sess, raw: tap, conn: tap}
 	defer func() {
 		tap.mu.Lock()
